@@ -299,3 +299,56 @@ def rule_args(ctx):
     r.positive_control(any(n == 'starstar_arg' for n, _ in p1) and not p1b and any(n == 'starstar_arg' for n, _ in p2),
                        '**kwargs release nested under `if self.star_arg`; early return after gotref without decref')
     return r
+
+
+def nullsafe_problems(ix, cls, fn, point):
+    """Releases of X.entry with the NULL-unsafe variant (put_[var_]decref...) on a path of the initialiser that has not created X.entry
+    (no ownership mark before it): the entry is still the NULL it was declared with."""
+    star, starstar, kwonly = point
+    toks, vals = {}, {'self.num_kwonly_args': 2 if kwonly else 0}
+    for name, present in (('star_arg', star), ('starstar_arg', starstar)):
+        if present:
+            toks[name] = Fresh('self.' + name)
+            vals['self.' + name] = toks[name]
+        else:
+            vals['self.' + name] = None
+    inl = Inliner(ix, cls, lambda p: vals.get(p, NOTFOUND))
+    n, probs = 0, []
+    for events in inl.paths(fn):
+        owned = set()
+        for e in events:
+            if not (isinstance(e, Call) and e.args and isinstance(e.args[0], Obj)):
+                continue
+            for name, tok in toks.items():
+                if e.args[0].path != tok.path + '.entry':
+                    continue
+                if GOTREF.match(e.name):
+                    owned.add(name)
+                elif RELEASE.match(e.name):
+                    n += 1
+                    if 'xdecref' not in e.name and name not in owned:
+                        probs.append((name, e.name))
+    return n, probs
+
+
+def rule_args_nullsafe(ctx):
+    # pending finding (FINDING_2.md): generate_stararg_init_code decref_clears an unused (NULL) **kwargs entry; NOT registered in run()
+    ix = ctx.index
+    r = Rule('C35-ARGNULL', 'generate_stararg_init_code releases a star-argument entry with a NULL-unsafe decref only on paths that created it', floor=1)
+    cls = ix.cls('Nodes', 'DefNodeWrapper')
+    got = ix.find_method(cls, 'generate_stararg_init_code')
+    if got is None:
+        raise AnalysisError('DefNodeWrapper.generate_stararg_init_code vanished')
+    fn = got[1]
+    reported = set()
+    for point in ((True, True, False), (False, True, False), (True, False, False)):
+        n, probs = nullsafe_problems(ix, cls, fn, point)
+        r.inst('argnull:%s%s' % ('*' if point[0] else '', '**' if point[1] else ''), sample='%d releases' % n)
+        for name, call in probs:
+            if name in reported:
+                continue
+            reported.add(name)
+            r.violate('Nodes.DefNodeWrapper.generate_stararg_init_code:%s:null-unsafe' % name, NODES, fn.lineno,
+                      'generate_stararg_init_code emits %s(self.%s.entry) on a path on which it has not created that entry (no put_var_gotref before it): the variable still holds '
+                      'the NULL it was declared with, and Py_DECREF(NULL) crashes; use the xdecref variant or repeat the creation condition' % (call, name))
+    return r
